@@ -21,6 +21,9 @@ def run(ctx):
     ss += S.generate(ctx, 10 if ctx.quick else 60, 6 if ctx.quick else 10, max_e=6, max_loops=4, routings_per_graph=1,
                      names=["sunrise", "banana4", "double_triangle", "kite", "bubble_chain", "triangle_tadpole"], mass_mode="some",
                      kinds=("uniform",))
+    # two-point functions (externals = end points of one propagator): the LAST removed edge can still be mass-momentum spanning
+    ss += S.generate(ctx, 6 if ctx.quick else 30, 8 if ctx.quick else 20, max_e=5, max_loops=3, routings_per_graph=1, kinds=("uniform",),
+                     names=["bubble", "triangle", "sunrise", "box", "bubble_leg", "kite"], ext_modes=["edge"])
     S.run(ss)
     SC.corr_perm(ctx, ss)
     for s in ss:
